@@ -43,6 +43,103 @@ AAAA_POOL = ["00000000000000000000000000000001", "20010db80000000000000000000000
 TXT_POOL = ["0161", "0141", "026869"]
 
 
+# ---------------------------------------------------------------- RDATA with embedded names
+# Rdata::equals compares the names embedded in the RDATA of the RFC 1035 name-bearing types (and SRV in class
+# IN, A in class CH) without ASCII case when BOTH operands are valid for the type's format, and octet-wise as
+# soon as one of them is malformed.  An RDATA is described by its parts: ("n", labels) | ("b", hex).
+T_MD, T_MF, T_MB, T_MG, T_MR, T_PTR, T_MINFO, T_SRV = 3, 4, 7, 8, 9, 12, 14, 33
+ONE_NAME_TYPES = (T_NS, T_CNAME, T_PTR, T_MB, T_MG, T_MR, T_MD, T_MF)
+NAME_BASES = [["6e73"], ["6e73", "61"], ["61"], ["62", "61"], ["6e73", "78"], ["6d78"], ["6d61696c"]]
+LONG63 = "61" * 63                     # a label of the maximal length
+MALFORM = ("junk", "cut", "len64", "ptr", "long", "zero")
+
+
+def ci_type(cls, ty):
+    """is (class, type) compared with case-insensitive embedded names?"""
+    return ty in ONE_NAME_TYPES or ty in (T_SOA, T_MINFO, T_MX) or (ty == T_SRV and cls == 1) or (ty == T_A and cls == 3)
+
+
+def name_labels(rng, apex):
+    r = rng.random()
+    if r < 0.02:
+        return [LONG63, "62"] + apex                                   # 63-octet label
+    if r < 0.035:
+        return [LONG63] * 3 + ["61" * (61 - sum(len(l) // 2 + 1 for l in apex))] + apex   # wire form of exactly 255 octets
+    base = rng.choice(NAME_BASES)
+    return base + (apex if rng.random() < 0.7 else ["78"])
+
+
+def rdata_parts(rng, ty, cls, apex):
+    """parts of a VALID RDATA of the type (None: the type has no embedded name in this class)"""
+    n = lambda: ("n", name_labels(rng, apex))
+    if ty in ONE_NAME_TYPES:
+        return [n()]
+    if ty == T_MX:
+        return [("b", rng.choice(["000a", "000a", "0014"])), n()]
+    if ty == T_SOA:
+        return [("n", ["6e73"] + apex), ("n", ["72"] + apex),
+                ("b", "%08x" % rng.choice([1, 1, 2]) + "00000e10" * 4)]
+    if ty == T_MINFO:
+        return [n(), n()]
+    if ty == T_SRV:
+        return [("b", rng.choice(["000100020035", "000100020035", "000100020050"])), n()]
+    if ty == T_A and cls == 3:
+        return [("n", ["63", "68"] if rng.random() < 0.6 else name_labels(rng, apex)), ("b", rng.choice(["0001", "0002"]))]
+    return None
+
+
+def render(rng, parts, p_flip, malform=None):
+    """hex of the RDATA; the letters of the names flipped with probability p_flip each; [malform] makes the RDATA
+    invalid for its format in a way that does not depend on the letter case (so case variants of a malformed
+    RDATA are malformed too and must be compared octet-wise)"""
+    out, first_name = [], True
+    for kind, v in parts:
+        if kind == "b":
+            out.append(v)
+            continue
+        labels = flip_case(rng, v, p_flip)
+        w = wire(labels)
+        if first_name and malform:
+            if malform == "cut":
+                w = w[:-2]                                   # no terminating root label
+            elif malform == "len64":
+                w = "40" + "61" * 64 + w                     # a 64-octet label
+            elif malform == "ptr":
+                w = w[:-2] + "c000"                          # compression pointer instead of the root label
+            elif malform == "long":
+                w = wire([LONG63] * 4 + labels)              # more than 255 octets
+            elif malform == "zero":
+                w = "00" + w                                 # root label first, the rest is extra data
+        first_name = False
+        out.append(w)
+    s = "".join(out)
+    if malform == "junk":
+        s += "09"
+    return s or "-"
+
+
+def name_record_burst(rng, ty, cls, apex):
+    """1..3 RDATAs of one (class, type): a base and, often, variants that differ from it only in the letter case
+    of the embedded names (equal iff the type is case-insensitive in this class AND the RDATA is valid), or only
+    in a fixed field, or by a malformation"""
+    parts = rdata_parts(rng, ty, cls, apex)
+    if parts is None:
+        return []
+    m = rng.choice(MALFORM) if rng.random() < 0.15 else None
+    out = [render(rng, parts, 0.0 if rng.random() < 0.5 else 0.3, m)]
+    r = rng.random()
+    if r < 0.45:
+        out.append(render(rng, parts, 0.6, m))                         # case variant
+        if rng.random() < 0.3:
+            out.append(render(rng, parts, 0.6, m))
+    elif r < 0.55:
+        out.append(render(rng, parts, 0.5, rng.choice(MALFORM)))       # valid vs malformed twin
+    elif r < 0.65:
+        p2 = [(k, (v[:-1] + ("0" if v[-1] != "0" else "1")) if k == "b" else v) for k, v in parts]
+        out.append(render(rng, p2, 0.5, m))                            # other fixed field (when there is one)
+    return out
+
+
 def name_rdata(rng, apex):
     """a valid uncompressed name, often inside the zone, with case variants (dedup is case-insensitive)"""
     base = rng.choice([["6e73"], ["6e73", "61"], ["61"], ["62", "61"], ["6e73", "78"]])
@@ -78,7 +175,8 @@ def gen_zone(rng, max_records=40):
         elif r < 0.30:
             rel, ty = [], rng.choice([T_NS, T_SOA])
         else:
-            ty = rng.choice([T_A, T_A, T_AAAA, T_AAAA, T_CNAME, T_TXT, T_NS, T_MX])
+            ty = rng.choice([T_A, T_A, T_AAAA, T_AAAA, T_CNAME, T_TXT, T_NS, T_MX, T_MX, T_PTR, T_SRV, T_MINFO,
+                             T_SOA, rng.choice([T_MB, T_MG, T_MR, T_MD, T_MF])])
         owner = flip_case(rng, rel + apex, 0.25)
         if rng.random() < 0.05:      # out of the zone
             cands = [owner[1:] if owner else ["78"], rel + ["78"], owner[:-1] + ["64"] if owner else ["64"]]
@@ -88,22 +186,25 @@ def gen_zone(rng, max_records=40):
                 cands.append(["78" + "%02x" % (len(apex[0]) // 2) + apex[0]] + apex[1:])
                 cands.append(rel + ["78" + "%02x" % (len(apex[0]) // 2) + apex[0]] + apex[1:])
             owner = rng.choice(cands)
-        if ty == T_A:
-            # class CH: <name><u16>; lower-case names only, where Rdata::equals is octet equality
-            rd = (wire(["63", "68"]) + rng.choice(["0001", "0002"])) if cls == 3 else rng.choice(A_POOL)
-        elif ty == T_AAAA:
-            rd = rng.choice(AAAA_POOL)
-        elif ty in (T_NS, T_CNAME):
-            rd = name_rdata(rng, apex)
-        elif ty == T_SOA:
-            rd = soa_rdata(rng, apex)
-        elif ty == T_MX:
-            rd = "000a" + wire(["6d78"] + apex)
-        else:
-            rd = rng.choice(TXT_POOL)
+        # name-bearing RDATA (real Rdata::equals: case-insensitive on valid RDATA, octet-wise on malformed RDATA):
+        # a burst of 1..3 records of the same RRset whose RDATAs are case / fixed-field / malformation variants
+        rds = name_record_burst(rng, ty, cls, apex)
+        if not rds:
+            if ty == T_A:
+                rds = [rng.choice(A_POOL)]
+            elif ty == T_AAAA:
+                rds = [rng.choice(AAAA_POOL)]
+            else:
+                rds = [rng.choice(TXT_POOL)]
         ttl = 3600 if rng.random() < 0.9 else 7200
-        c = cls if rng.random() < 0.97 else rng.choice([1, 3, 7])
-        recs.append(f"{nm(owner)},{ty},{c},{ttl},{rd}")
+        for rd in rds:
+            c = cls if rng.random() < 0.97 else rng.choice([1, 3, 7])
+            # the variants keep the owner (sometimes spelled differently) so that they meet in one RRset
+            o = owner if rng.random() < 0.7 else flip_case(rng, owner, 0.3)
+            recs.append(f"{nm(o)},{ty},{c},{ttl},{rd}")
+    if rng.random() < 0.3:
+        rng.shuffle(recs)               # interleave the bursts
+    recs = recs[:max_records]
     return apex, cls, recs
 
 
@@ -124,8 +225,8 @@ def outside_names(rng, apex):
 # ---------------------------------------------------------------- validation zones (C21)
 
 def ch_a_rdata(rng):
-    # class CH type A: <domain name><16-bit address>; lower-case names only (req_simple is octet equality here)
-    return wire(["63", "68"]) + rng.choice(["0001", "0002"])
+    # class CH type A: <domain name><16-bit address>; the name compares without case (real Rdata::equals)
+    return wire(flip_case(rng, ["63", "68"], 0.3)) + rng.choice(["0001", "0002"])
 
 
 def addr_records(rng, cls, owner, p_a=0.6, p_aaaa=0.3):
@@ -162,20 +263,38 @@ def gen_vzone(rng):
             return rng.choice(hosts) + apex
         if r < 0.85:
             return [rng.choice(L)] + ["2a"] + apex if rng.random() < 0.3 else ["7a"] + apex      # wildcard-covered / absent
+        if r < 0.89:
+            # at the limits of what the name parser accepts: a 63-octet label / a wire form of exactly 255 octets
+            return [LONG63] + apex if rng.random() < 0.5 else \
+                [LONG63] * 3 + ["61" * (61 - sum(len(l) // 2 + 1 for l in apex))] + apex
         return ["6e73", "78"]                                                                    # outside
     recs = []
 
     def add(owner, ty, rd, ttl=3600):
         recs.append((owner, ty, rd))
+    def variants(owner, ty, parts):
+        # the same RDATA again with other letter case in its names: ONE member of the RRset (Rdata::equals), so
+        # neither TooManyApexSoas nor DuplicateCname nor a second address lookup may come from it
+        if rng.random() < 0.25:
+            add(owner, ty, render(rng, parts, 0.6))
     for _ in range(rng.choice([0, 1, 1, 1, 2])):
-        add(apex, T_SOA, soa_rdata(rng, apex))
+        parts = [("n", ["6e73"] + apex), ("n", ["72"] + apex), ("b", "%08x" % rng.choice([1, 1, 2]) + "00000e10" * 4)]
+        add(apex, T_SOA, render(rng, parts, 0.0))
+        variants(apex, T_SOA, parts)
     for _ in range(rng.choice([0, 1, 2, 2])):
-        add(apex, T_NS, wire(flip_case(rng, target(), 0.2)))
+        parts = [("n", target())]
+        add(apex, T_NS, render(rng, parts, 0.2))
+        variants(apex, T_NS, parts)
     for d in dels:
         for _ in range(rng.choice([1, 1, 2])):
-            add(d + apex, T_NS, wire(flip_case(rng, target(), 0.2)))
+            parts = [("n", target())]
+            add(d + apex, T_NS, render(rng, parts, 0.2))
+            variants(d + apex, T_NS, parts)
     for _ in range(rng.choice([0, 1, 2])):
-        add(rng.choice([[], ["61"], ["62", "61"]]) + apex, T_MX, "000a" + wire(target()))
+        parts = [("b", "000a"), ("n", target())]
+        o = rng.choice([[], ["61"], ["62", "61"]]) + apex
+        add(o, T_MX, render(rng, parts, 0.2))
+        variants(o, T_MX, parts)
     # addresses: for hosts, for names inside delegations (glue), sometimes for nothing
     for h in hosts:
         recs += addr_records(rng, cls, h + apex)
@@ -187,7 +306,9 @@ def gen_vzone(rng):
     # CNAMEs
     for _ in range(rng.choice([0, 0, 1, 2])):
         o = rng.choice([["63", "61"], ["77"], ["61"], ["2a", "62"]]) + apex
-        add(o, T_CNAME, wire(target()))
+        parts = [("n", target())]
+        add(o, T_CNAME, render(rng, parts, 0.0))
+        variants(o, T_CNAME, parts)
         if rng.random() < 0.4:
             add(o, T_CNAME, wire(target()))
         if rng.random() < 0.4:
@@ -195,9 +316,12 @@ def gen_vzone(rng):
     # NS at a wildcard
     if rng.random() < 0.3:
         add(rng.choice([["2a"], ["2a", "62"], ["2a"] + (dels[0] if dels else ["63"])]) + apex, T_NS, wire(target()))
-    # RDATA that is not a domain name
-    if rng.random() < 0.08:
-        bad = rng.choice(["", "05", "0161", "4061" + "61" * 63 + "00", "016100ff", "c00c"])
+    # RDATA that is not a domain name (in every way the parser can refuse it), or only just one
+    if rng.random() < 0.12:
+        bad = rng.choice(["", "05", "0161", "4061" + "61" * 63 + "00", "016100ff", "c00c", "00ff", "0000",
+                          render(rng, [("n", target())], 0.2, rng.choice(MALFORM)),
+                          wire([LONG63] * 3 + ["61" * 62]),                 # 256 octets: one too many
+                          wire([LONG63] * 3 + ["61" * 61])])                # 255 octets: still a name
         ty = rng.choice([T_NS, T_NS, T_MX])
         o = rng.choice([apex] + [d + apex for d in dels])
         add(o, ty, ("000a" + bad) if ty == T_MX and rng.random() < 0.7 else (bad or "-"))
